@@ -29,3 +29,7 @@ CHECKS["C09"] = dict(
     text="Read purity and exact creation: (a) a deep snapshot (structure, values, key order, container identities) taken around get_nodes(mustexist=True), exists() and optional-match on an existing path must be unchanged, for C01 templates and collector expressions with +, -, & over symbolic leaves; (b) set_value / optional-match on straight key/index paths with a missing tail (depth 1-3, symbolic index and value) must produce exactly the model document: missing tail added, lists padded to exactly the requested index, every pre-existing node unchanged.",
     note="Pad slot values are not asserted. The supplied value ranges over [-1,1] because the implementation wraps it in a C-constructed ruamel scalar (finite realisation).")
 del NA["C09"]
+CHECKS["C04"] = dict(
+    text="Delete exactness: for shape x template shards (indexes incl. negative, slices, searches, wildcards, deep traversal, AoH pass-through, duplicates through collector addition, empty-container targets) the real Processor.delete_nodes runs symbolically and the resulting document must equal a plain-data model with exactly the positions selected by the C01 reference model removed and everything else in its original order; deleting the root is refused and leaves the document unchanged; delete_gathered_nodes over two gathered elements.",
+    note="Which nodes a path matches is taken from the C01 reference model (validated against the repository's tests).")
+del NA["C04"]
